@@ -96,6 +96,8 @@ class Srv:
         self.sess.fs.budget_hit = False
         try:
             r = self.sess.raw_exchange([bytes([t]) + payload])
+        except InfraError as e:
+            raise InfraError("%s (request type %d payload %s force %r)" % (e, t, hx(payload)[:120], force))
         finally:
             self.sess.fs.force = None
         return parse_resp(r), self.sess.fs.budget_hit
@@ -242,18 +244,23 @@ def gen_malformed(rng, srv):
     t = rng.choice([rng.randrange(0, 256), rng.choice([3, 5, 6, 9, 10, 12, 14, 200])])
     rid = rng.randrange(0, 1 << 32)
     body = struct.pack(">I", rid)
-    r = rng.random()
-    if r < 0.3 and t in (3, 9, 10, 14):
-        r = 0.5  # these decode an attribute block: random bytes could set the EXTENDED flag with a count of 2^32
-    if r < 0.3:
-        body += rng.randbytes(rng.randrange(0, 40))
-    elif r < 0.6:
-        body += s_(rng.choice([srv.hF, srv.hD, b"/a", b"nope"])) + attrs_block(rng, legal=False) + rng.randbytes(rng.randrange(0, 6))
+    if t in (3, 9, 10, 14):
+        # these decode an attribute block: keep the layout exact (name/handle, [pflags,] attributes) so that no
+        # random byte can land in the flags word and announce 2^31 extended pairs (a count the decoder would loop
+        # over for minutes before answering); truncation below only ever shortens fields (zero padded)
+        first = rng.choice([srv.hF, srv.hD, b"nope"]) if t == 10 else rng.choice([b"/a", b"/nofile", b"/d"])
+        body += s_(first)
+        if t == 3:
+            body += struct.pack(">I", rng.randrange(0, 64))
+        body += attrs_block(rng, legal=False)
     else:
-        body += s_(rng.choice([srv.hF, b"/a", b"check-file"])) + struct.pack(">Q", rng.randrange(0, 200)) + \
-            struct.pack(">I", rng.randrange(0, 300)) + rng.randbytes(rng.randrange(0, 10))
-    cut = rng.random()
-    if cut < 0.3:
+        r = rng.random()
+        if r < 0.4:
+            body += rng.randbytes(rng.randrange(0, 40))
+        else:
+            body += s_(rng.choice([srv.hF, b"/a", b"check-file"])) + struct.pack(">Q", rng.randrange(0, 200)) + \
+                struct.pack(">I", rng.randrange(0, 300)) + rng.randbytes(rng.randrange(0, 10))
+    if rng.random() < 0.3:
         body = body[:rng.randrange(0, len(body) + 1)]
     return t, body
 
@@ -343,7 +350,7 @@ def client_mix_case(ctx, rng):
         sess.close()
 
 
-def backpressure_case(ctx, nchunks=1500, read_bytes=2 << 20, limit=45.0):
+def backpressure_case(ctx, nchunks=1500, read_bytes=2 << 20, limit=40.0):
     """Real Transports (server window 32768 bytes): prefetch more READ requests than the server's window holds
     without reading, wait until SSH flow control has stopped the prefetch thread, then read.  A read that does not
     come back is a deadlock iff the reader waits for SFTPClient._lock while another thread sits in
@@ -407,7 +414,7 @@ def backpressure_case(ctx, nchunks=1500, read_bytes=2 << 20, limit=45.0):
         first = sftp.request_number
         f.prefetch(size)
         # "do something else": until the prefetch thread makes no progress any more (or has sent everything)
-        last, stable, t_end = sftp.request_number, time.time(), time.time() + 30
+        last, stable, t_end = sftp.request_number, time.time(), time.time() + 300
         while time.time() < t_end:
             time.sleep(0.05)
             cur = sftp.request_number
@@ -428,13 +435,27 @@ def backpressure_case(ctx, nchunks=1500, read_bytes=2 << 20, limit=45.0):
                     if d.count(b"\0") != len(d):
                         box["bad"] = True
                     got += len(d)
+                    box["n"] = got
                 box["got"] = got
             except BaseException as e:  # noqa
                 box["exc"] = e
 
         th = threading.Thread(target=reader, daemon=True, name="pv-bp-reader")
         th.start()
-        th.join(limit)
+        # watchdog scaled by progress: as long as requests are still being issued or bytes are still arriving the
+        # session is slow, not stuck; only `limit` seconds without any progress end the wait
+        def progress():
+            return (sftp.request_number, box.get("n", 0), getattr(sftp.sock, "in_window_sofar", 0),
+                    len(getattr(getattr(sftp.sock, "in_buffer", None), "_buffer", b"")))
+
+        lastp, quiet_since, t_cap = progress(), time.time(), time.time() + 900
+        while th.is_alive() and time.time() < t_cap:
+            th.join(0.5)
+            cur = progress()
+            if cur != lastp:
+                lastp, quiet_since = cur, time.time()
+            elif time.time() - quiet_since > limit:
+                break
         if not th.is_alive():
             if "exc" in box:
                 return desc, ("backpressure-read-raises:" + L.exc_kind(box["exc"]), repr(box["exc"]))
